@@ -114,6 +114,37 @@ def run(ctx, rep):
         between = "store_skip" if op in ("And", "Or") else None
         n += check_order(rep, "C15.order|binop|%s" % op, "`a %s b`: a is evaluated before b%s" % (op, ", with a short-circuit test in between" if between else ""),
                          rows, ex, "lhs", "rhs", between=between, where=cd.span, fn=cd.path)
+    # ---- && / ||: the skip count lands right after the operator's own code ------------------------------------------------
+    import opcodes
+    from mir import op_local, op_const
+    lits = [(nm, c) for f_, nm, sp, c in opcodes.instruction_literals(F) if f_ is cd]
+    skips = [c for nm, c in lits if nm == "store_skip"]
+    rep.floor("C15.store_skip emission sites", len(skips), 2)
+    consts = []
+    for bi, si, dst, rv, s_ in cd.assigns():
+        if "bin" in rv and rv["bin"] in ("AddWithOverflow", "Add") and rv.get("lty") == "usize":
+            k = op_const(rv["r"])
+            l = op_local(rv["l"])
+            if k is None or l is None or not any(x.matches("alloc::vec::Vec::len") for x in rules.origin_calls(cd, l)):
+                continue
+            reach = cd.reachable(bi)
+            nxt = [c for c in skips if c.bb in reach]
+            if nxt:
+                consts.append(int(k.get("int", "-1")))
+    for op in ("And", "Or"):
+        rows, ex = seqgen.sequences(F, cd, [binop(op), Opaque("state"), Opaque("depth")])
+        seqs = [r["seq"] for r in rows if r["seq"] is not None]
+        tail = None
+        for sq in seqs:
+            ps = positions(sq, "rhs")
+            if len(ps) == 1:
+                tail = len(sq) - ps[0] - 1
+        oksk = tail is not None and len(consts) >= 2 and all(c == tail + 1 for c in consts)
+        rep.ob("C15.short", "`a %s b`: when the left operand decides, the skip lands right after the operator's code (skip = len(code(b)) + %s)" % (
+            "&&" if op == "And" else "||", (tail + 1) if tail is not None else "?"), "ok" if oksk else "violated",
+               "instructions after code(b): %s; constants added to len(code(b)) before store_skip: %s" % (tail, consts), cd.span, fn=cd.path,
+               key="C15.short|skip-count|%s" % op)
+
     # ---- compound assignment: the target's sub-expressions (index / receiver) come before the right-hand side --------------
     shapes = {"index": expr("Index", [Opaque("lhs"), Opaque("lhsindex")]) if "Index" in en else None,
               "field": expr("DotLookup", [Opaque("lhs"), Opaque("lhschain"), Opaque("ty")]) if "DotLookup" in en else None}
